@@ -1,6 +1,7 @@
 import BlochVerif.Sem.Decls
 /-! `decl <items>`: acceptance of a declaration list.  Items are `;`-separated:
-`c,Name,Base|-,calls,news` and `f,Name,arity,calls,news` with calls `g/1+h/0|-`, news `A+B|-`. -/
+`c,Name,Base|-,calls,news[,abstract 0|1,bodyless virtuals,implemented]` and `f,Name,arity,calls,news` with calls
+`g/1+h/0|-`, name lists `A+B|-`. -/
 namespace Driver
 open BlochVerif.Decls
 
@@ -18,6 +19,12 @@ def declStep (p : Prog) (item : String) : Option Prog :=
     let cs ← parseCalls calls
     some { p with classes := p.classes ++ [{ name := n, base := if b == "-" then none else some b,
                                              body := { calls := cs, news := parseNews news } }] }
+  | ["c", n, b, calls, news, ab, abstracts, impls] => do
+    let cs ← parseCalls calls
+    some { p with classes := p.classes ++ [{ name := n, base := if b == "-" then none else some b,
+                                             body := { calls := cs, news := parseNews news },
+                                             isAbstract := ab == "1", abstracts := parseNews abstracts,
+                                             impls := parseNews impls }] }
   | ["f", n, k, calls, news] => do
     let cs ← parseCalls calls
     some { p with functions := p.functions ++ [{ name := n, arity := ← k.toNat?,
